@@ -62,6 +62,17 @@ def chunk_property_pairs(rng, tier):
                 head = ("u %s " % hx(d[:first])) if first else ""
                 pairs.append(("hist %s %su %s u %s l %s" % (v, head, hx(d[first:]), hx(rest), ALLF), ref))
                 pairs.append(("hist %s %su %s c u %s l %s" % (v, head, hx(d[first:]), hx(rest), ALLF), ref))
+    # EVERY size of the first / second piece up to 6000 bytes, and multiples of 256 +- 1..3 up to 70 kB (pseudo-random bytes
+    # generated inside the harness; implementation alone): a block-wise update path with any block size
+    sizes = list(range(1, 6001 if tier == "quick" else 12001)) + [m * 256 + r for m in range(24, 274) for r in (-3, -2, -1, 0, 1, 2, 3)]
+    for a in sizes:
+        v = VNAMES[a % len(VNAMES)]
+        n = a + 40 + (a % 7)
+        o = "f %d" % (30 if a % 2 else 2)
+        pairs.append(("hist %s usplit %d %d %d l %s fd" % (v, a, n, a, o), "hist %s ugen %d %d l %s fd" % (v, a, n, o)))
+        if a % 3 == 0:
+            pairs.append(("hist %s u x0102030405060708090a0b usplit %d %d %d l %s fd" % (v, a, n, a, o),
+                          "hist %s u x0102030405060708090a0b ugen %d %d l %s fd" % (v, a, n, o)))
     # pieces of about n bytes for every integer literal n that is new in the current source (empty on the audited tree)
     import srcdict
     for n in srcdict.new_literals()["ints"]:
